@@ -18,6 +18,7 @@ func c16(r *core.Run) {
 	r.Explanation = "Static rules over the two registration handlers (rns.MsgRegister, rns.MsgRegisterName): the debit and the POL credit are one SSA value that depends on the TLD cost table and the requested years; bank errors propagate to a failing return; every reaching definition of the stored Names.Expires adds a base (current height, or the old expiry only under a live comparison); a found record owned by someone else is overwritten only behind an expired comparison. Decides the structural causes of 'charges the listed price and yields a live name for the term', not the numeric '>= Y years'."
 	r.Assumptions = []string{T1, T3, T4}
 	r.NotDecided = []string{"the numeric bound 'unexpired for at least Y years'", "exact price tiers (control dependence on name length)"}
+	r.Rule("C16/R7", "the TLD of a requested name is recognised by a suffix test (name[len(name)-len(tld):] == tld or strings.HasSuffix) in the keeper's parser and in the validation copy: the recognised TLD is what is cut off, priced and stored")
 	r.Rule("C16/R6", "block-height arithmetic is dimensionally consistent: absolute heights (Ctx.BlockHeight and fields assigned from it) are compared only with absolute heights, intervals/offsets/parameters only with each other (point - point = span, point ± span = point), followed through helper calls with the dimensions of the actual arguments")
 	r.Rule("C16/R1", "registration: account->module debit and module->POL credit carry the same value, which depends on msg.Years and the TLD cost table; recipient is the constant POL account; bank errors propagate")
 	r.Rule("C16/R2", "every reaching definition of the stored Names.Expires is years*const plus a base: Ctx.BlockHeight, or Store(Names).Expires only on paths that passed a live comparison for that record")
@@ -25,6 +26,7 @@ func c16(r *core.Run) {
 	r.Rule("C16/R5", "the name record loaded for the liveness/ownership decision and the name record written are keyed by the same terms (same normalisation of the requested name on both sides)")
 	r.Rule("C16/R3", "a found name owned by another account is overwritten only behind an expired comparison (same guard row as C08/R1 for registration)")
 	heightDimensions(r, "C16/R6", moduleFuncs(p, "rns"), 3)
+	tldRecognisers(r, "C16/R7")
 	hs, err := p.Handlers()
 	if err != nil {
 		r.Undecided("C16/R1", "handlers", "", err.Error())
@@ -211,3 +213,107 @@ func typeNameOfPtr(v ssa.Value) string {
 }
 
 func fieldNameOf(fa *ssa.FieldAddr) string { return core.FieldName(fa.X.Type(), fa.Field) }
+
+// tldRecognisers: functions of the rns module that range over a package-level list and return the element that
+// "matches" a string parameter. The match must be a suffix test of that parameter (the element is later cut off the
+// end of the name by its length): name[len(name)-len(tld):] == tld, or strings.HasSuffix(name, tld).
+func tldRecognisers(r *core.Run, rule string) {
+	p := r.Prog
+	n := 0
+	for _, fn := range moduleFuncs(p, "rns") {
+		if len(fn.Params) != 1 || fn.Params[0].Type().String() != "string" || fn.Signature.Results().Len() != 2 {
+			continue
+		}
+		for _, b := range fn.Blocks {
+			ret, ok := b.Instrs[len(b.Instrs)-1].(*ssa.Return)
+			if !ok || !core.InCycle(b) && !returnsLoopElement(ret) {
+				continue
+			}
+			if !returnsLoopElement(ret) {
+				continue
+			}
+			elem := ret.Results[0]
+			n++
+			r.Analysed(core.FnName(fn))
+			tb := core.NewTermBuilder(p)
+			tb.Bounds = true
+			tb.Names[elem] = "T"
+			okGuard := false
+			seen := ""
+			for _, gb := range fn.Blocks {
+				ifi, isIf := gb.Instrs[len(gb.Instrs)-1].(*ssa.If)
+				if !isIf {
+					continue
+				}
+				for succ := 0; succ < 2; succ++ {
+					// the edge must be the only way into the returning block
+					if core.PathExists(fn, map[core.Edge]bool{{From: gb, Succ: succ}: true}, ret, nil) {
+						continue
+					}
+					ca := p.NormCond(ifi)
+					truth := !ca.Neg
+					if succ == 1 {
+						truth = ca.Neg
+					}
+					switch ca.Kind {
+					case "eq":
+						if !truth {
+							continue
+						}
+						other := ca.X
+						if ca.X == elem {
+							other = ca.Y
+						} else if ca.Y != elem {
+							continue
+						}
+						t := tb.Term(other)
+						seen = t
+						if t == "slice(P0,(len(P0)-len(T)),)" {
+							okGuard = true
+						}
+					case "callbool":
+						if ca.Call != nil && truth {
+							t := tb.Term(ca.Call)
+							seen = t
+							if t == "strings.HasSuffix(P0,T)" || t == `strings.HasSuffix(P0,concat(".",T))` {
+								okGuard = true
+							}
+						}
+					}
+				}
+			}
+			r.Check(okGuard, rule, core.FnName(fn)+":tld-recognised-by-suffix", p.InstrPos(ret), "the list element is returned only if it is the suffix of the name", "the list element is returned on a test that is not a suffix test of the name ("+seen+"): the wrong TLD can be recognised (first list entry wins), and the name is then cut, priced and stored under that TLD")
+		}
+	}
+	r.Floor(rule, n, 2, "TLD recognisers (keeper and validation copy)")
+}
+
+// returnsLoopElement: the first result is an element of a package-level slice being ranged over.
+func returnsLoopElement(ret *ssa.Return) bool {
+	if len(ret.Results) == 0 {
+		return false
+	}
+	var base ssa.Value
+	switch x := ret.Results[0].(type) {
+	case *ssa.UnOp:
+		if ia, ok := x.X.(*ssa.IndexAddr); ok {
+			base = ia.X
+		}
+	case *ssa.Index:
+		base = x.X
+	case *ssa.Extract:
+		if nx, ok := x.Tuple.(*ssa.Next); ok {
+			if rg, ok := nx.Iter.(*ssa.Range); ok {
+				base = rg.X
+			}
+		}
+	}
+	if base == nil {
+		return false
+	}
+	if u, ok := base.(*ssa.UnOp); ok {
+		_, isGlobal := u.X.(*ssa.Global)
+		return isGlobal
+	}
+	return false
+}
